@@ -48,6 +48,7 @@ var c05TSARoot, c05TSALeaf *Cert
 type c05Env struct {
 	chain  Chain
 	env    map[string][]byte // key: format|scheme
+	stime  map[string]int64  // signing time of the signed attributes (unix seconds, 0 = zero time) as notation-core-go reads it back
 	desc   ocispec.Descriptor
 	store  *MockStore
 	subjs  []string
@@ -66,6 +67,9 @@ type c05Case struct {
 	Vec     []int  `json:"vector"`
 	Method  int    `json:"method_annotation"`
 	SrvErr  bool   `json:"server_errors"`
+	Ann     []c05Ann `json:"annotations,omitempty"` // explicit per-certificate annotations (method, server results); nil: derived from Method / SrvErr
+	NilRes  bool   `json:"nil_result_slice"`        // the validator returns (nil, nil): no results and no error
+	Stime   int64  `json:"signing_time_unix"`       // signing time in the signed attributes of the envelope (ground truth from notation-core-go)
 	Step    int    `json:"history_step"` // > 0: n-th verification on one and the same verifier instance (the verdict must not depend on earlier calls)
 	hist    *c05Hist
 	Blob    bool `json:"via_verify_blob"` // this step goes through VerifyBlob under the blob statement of the SAME verifier (named like the OCI one)
@@ -75,6 +79,29 @@ type c05Case struct {
 	Calls    []string `json:"obs_calls"`
 	Result   string   `json:"obs_result"`
 	Rejected bool     `json:"obs_rejected"`
+	Panic    string   `json:"obs_panic,omitempty"` // Verify did not return: recovered run-time panic
+}
+
+// c05Ann is the annotation part of one CertRevocationResult: its RevocationMethod and, per
+// server result, the method and whether it carries an error.
+type c05Ann struct {
+	Method  int      `json:"method"`
+	Servers [][2]int `json:"servers"` // (method, 1 = Error != nil)
+}
+
+func c05SigningTime(format string, env []byte) int64 {
+	content, err := CoreVerify(format, env)
+	if err != nil || content.SignerInfo.SignedAttributes.SigningTime.IsZero() {
+		return 0
+	}
+	return content.SignerInfo.SignedAttributes.SigningTime.Unix()
+}
+
+func c05OptZ(t int64) string {
+	if t == 0 {
+		return "None"
+	}
+	return CSome(CZ(t))
 }
 
 // c05Hist is one verifier instance used for a whole history of verifications, with a
@@ -90,10 +117,11 @@ type c05Hist struct {
 func runC05(a *Args) error {
 	rng := NewRng(a.Seed)
 	prelude := "From NV Require Import Base C05_Model.\nOpen Scope string_scope.\n"
-	w := NewCaseWriter(a, "C05", prelude, "case", "run")
-	w.Rule = "every result vector over {OK,NonRevokable,Unknown,Revoked}^n (n=1..4 exhaustively; thorough adds n=5,6 exhaustively and random n<=12 with out-of-range result values) x action x validator interface x scheme x envelope format x presence of a timestamp countersignature in the unsigned attributes x position of the trust anchor in the chain (root / middle / leaf held by the listed store), plus validator errors (alone, and together with a complete result vector), short vectors, the library-default validator, and histories of 2-4 verifications on one verifier instance while the validator's answer changes; run through the real verifier.Verify. non-trivial = revocation not skipped and (some certificate not OK, or a validator error); distinct = distinct (vector, action, validators, scheme, format, error) tuples"
+	w := NewCaseWriter(a, "C05", prelude, "xcase", "xrun")
+	w.Rule = "every result vector over {OK,NonRevokable,Unknown,Revoked}^n (n=1..4 exhaustively; thorough adds n=5,6 exhaustively and random n<=12 with out-of-range result values) x action x validator interface x scheme x envelope format x presence of a timestamp countersignature in the unsigned attributes x position of the trust anchor in the chain (root / middle / leaf held by the listed store), plus validator errors (alone, and together with a complete result vector), answers outside the contract without error (fewer results than certificates incl. (nil,nil): aggregated as they are; more results: Verify panics, recovered and recorded), per-certificate method annotations and server results with/without errors (printed into the input term), the signing time of the signed attributes against the time value the validator receives, the library-default validator, and histories of 2-4 verifications on one verifier instance while the validator's answer changes; run through the real verifier.Verify. non-trivial = revocation not skipped and (some certificate not OK, or a validator error); distinct = distinct (vector, action, validators, scheme, format, error) tuples"
 	w.Assumptions = []string{
-		"the revocation validator returns one result per certificate (longer vectors index out of range in revocationFinalResult; outside the validator contract)",
+		"the property oracle is evaluated on answers that respect the validator contract (one result per certificate, or an error); answers outside it are checked for correspondence with the model only: a shorter vector is aggregated as it is (an all-passing one passes: theorem C05_pass_only_if_refuted), a longer one panics",
+		"the verifier whose two validator fields are both nil (x_val = 4 in the model) cannot be built through the public API and is not exercised",
 		"result classes are recognised from the error text of the revocation ValidationResult (\"is revoked\", \"revocation status is unknown\", \"unable to check revocation status\")",
 	}
 	now := time.Now()
@@ -108,7 +136,7 @@ func runC05(a *Args) error {
 		if e, ok := envs[n]; ok {
 			return e
 		}
-		e := &c05Env{env: map[string][]byte{}}
+		e := &c05Env{env: map[string][]byte{}, stime: map[string]int64{}}
 		e.chain = NewChain(fmt.Sprintf("c05n%d", n), n, now.Add(-48*time.Hour), now.Add(48*time.Hour))
 		e.desc = ocispec.Descriptor{MediaType: "application/vnd.oci.image.manifest.v1+json", Digest: digest.Digest(strings.TrimPrefix(TestRef, TestScope+"@")), Size: 528}
 		for _, f := range []string{MtJWS, MtCOSE} {
@@ -118,6 +146,7 @@ func runC05(a *Args) error {
 					panic(err)
 				}
 				e.env[f+"|"+string(sc)] = b
+				e.stime[f+"|"+string(sc)] = c05SigningTime(f, b)
 				// the same envelope with a genuine timestamp countersignature over its signature value in the
 				// unsigned attributes: it must not change what the revocation validator is asked
 				if content, err := CoreVerify(f, b); err == nil {
@@ -125,6 +154,7 @@ func runC05(a *Args) error {
 					if b2, err := attachToken(f, b, tok); err == nil {
 						if _, err := CoreVerify(f, b2); err == nil {
 							e.env[f+"|"+string(sc)+"|tok"] = b2
+							e.stime[f+"|"+string(sc)+"|tok"] = c05SigningTime(f, b2)
 						}
 					}
 				}
@@ -187,9 +217,19 @@ func runC05(a *Args) error {
 		}
 		doc := OCIPolicy(c.Level, override, []string{fmt.Sprintf("%s:a%d", storeType, c.Anchor)}, []string{"*"}, "")
 		var results []*revresult.CertRevocationResult
+		var resTerms []string
 		for i, k := range c.Vec {
 			r := &revresult.CertRevocationResult{Result: c05Result(k), RevocationMethod: revresult.RevocationMethod(c.Method)}
-			if c.SrvErr {
+			if c.Ann != nil {
+				r.RevocationMethod = revresult.RevocationMethod(c.Ann[i].Method)
+				for j, sv := range c.Ann[i].Servers {
+					sr := &revresult.ServerResult{Result: c05Result(k), Server: fmt.Sprintf("http://srv%d-%d.example", i, j), RevocationMethod: revresult.RevocationMethod(sv[0])}
+					if sv[1] == 1 {
+						sr.Result, sr.Error = revresult.ResultUnknown, errors.New("mock server error")
+					}
+					r.ServerResults = append(r.ServerResults, sr)
+				}
+			} else if c.SrvErr {
 				r.ServerResults = []*revresult.ServerResult{
 					{Result: revresult.ResultUnknown, Server: fmt.Sprintf("http://ocsp%d.example", i), Error: errors.New("mock server error"), RevocationMethod: revresult.RevocationMethodOCSP},
 					{Result: c05Result(k), Server: fmt.Sprintf("http://crl%d.example", i), RevocationMethod: revresult.RevocationMethodCRL},
@@ -203,6 +243,23 @@ func runC05(a *Args) error {
 			if !c.VErrRes {
 				results = nil
 			}
+		}
+		if c.NilRes {
+			results = nil
+		}
+		// the input term is printed from what the validator really hands back
+		for _, r := range results {
+			k := 4
+			for j := 0; j < 4; j++ {
+				if c05Result(j) == r.Result {
+					k = j
+				}
+			}
+			var srv []string
+			for _, sr := range r.ServerResults {
+				srv = append(srv, CPair(CN(int64(sr.RevocationMethod)), CBool(sr.Error != nil)))
+			}
+			resTerms = append(resTerms, CApp("mk_cr", c05ResNames[k], CN(int64(r.RevocationMethod)), CList(srv)))
 		}
 		var v notation.Verifier
 		var calls *[]RevCall
@@ -255,25 +312,44 @@ func runC05(a *Args) error {
 				c.Token = false
 			}
 		}
+		c.Stime = e.stime[c.Format+"|"+string(scheme)]
+		if c.Token {
+			c.Stime = e.stime[c.Format+"|"+string(scheme)+"|tok"]
+		}
 		var outcome *notation.VerificationOutcome
 		var verr2 error
-		if c.Blob && c.hist != nil && c.hist.bv != nil {
-			// the envelope is presented as a blob signature: the descriptor generator answers with the signed descriptor
-			gen := func(digest.Algorithm) (ocispec.Descriptor, error) { return e.desc, nil }
-			outcome, verr2 = c.hist.bv.VerifyBlob(context.Background(), gen, envBytes, notation.BlobVerifierVerifyOptions{SignatureMediaType: c.Format, TrustPolicyName: "p"})
-		} else {
-			c.Blob = false
-			outcome, verr2 = v.Verify(context.Background(), e.desc, envBytes, notation.VerifierVerifyOptions{ArtifactReference: TestRef, SignatureMediaType: c.Format})
-		}
+		func() {
+			// a result vector longer than the chain makes revocationFinalResult index the chain out of range
+			defer func() {
+				if r := recover(); r != nil {
+					c.Panic = fmt.Sprint(r)
+					outcome, verr2 = nil, nil
+				}
+			}()
+			if c.Blob && c.hist != nil && c.hist.bv != nil {
+				// the envelope is presented as a blob signature: the descriptor generator answers with the signed descriptor
+				gen := func(digest.Algorithm) (ocispec.Descriptor, error) { return e.desc, nil }
+				outcome, verr2 = c.hist.bv.VerifyBlob(context.Background(), gen, envBytes, notation.BlobVerifierVerifyOptions{SignatureMediaType: c.Format, TrustPolicyName: "p"})
+			} else {
+				c.Blob = false
+				outcome, verr2 = v.Verify(context.Background(), e.desc, envBytes, notation.VerifierVerifyOptions{ArtifactReference: TestRef, SignatureMediaType: c.Format})
+			}
+		}()
 		// observation
 		var callTerms []string
 		for _, k := range *calls {
-			callTerms = append(callTerms, CApp("mk_call", CN(int64(k.Which)), CStrList(Subjects(k.Chain)), CBool(k.TimeSet)))
-			c.Calls = append(c.Calls, fmt.Sprintf("%d:%d certs:time=%v", k.Which, len(k.Chain), k.TimeSet))
+			var t int64
+			if k.TimeSet {
+				t = k.Time.Unix()
+			}
+			callTerms = append(callTerms, CApp("mk_xcall", CN(int64(k.Which)), CStrList(Subjects(k.Chain)), c05OptZ(t)))
+			c.Calls = append(c.Calls, fmt.Sprintf("%d:%d certs:time=%d", k.Which, len(k.Chain), t))
 		}
 		resTerm := "None"
 		c.Result = "absent"
-		if r, n := FindResult(outcome, trustpolicy.TypeRevocation); r != nil {
+		if outcome == nil {
+			// panic, or an error before any outcome exists
+		} else if r, n := FindResult(outcome, trustpolicy.TypeRevocation); r != nil {
 			if n > 1 {
 				c.Result = "duplicated"
 				resTerm = "(Some (Unknown \"<duplicated revocation result>\"))"
@@ -294,19 +370,11 @@ func runC05(a *Args) error {
 		}
 		c.Rejected = verr2 != nil
 		// input
-		vout := "VErr"
-		if !c.VErr {
-			items := make([]string, len(c.Vec))
-			for i, k := range c.Vec {
-				items[i] = c05ResNames[k]
-			}
-			vout = CApp("VRes", CList(items))
-		}
-		in := CApp("mk_input", c.Action, CBool(c.SA), CN(int64(c.Val)), CStrList(e.subjs), vout)
-		obs := CApp("mk_obs", CList(callTerms), resTerm, CBool(c.Rejected))
-		term := CApp("mk_case", CN(my), in, obs)
-		nontriv := c.Action != "Skip" && (c.VErr || hasNonOK(c.Vec))
-		key := fmt.Sprintf("%v|%v|%v|%v|%v|%v|%v|%v|%v|%v|%v|%v", c.Vec, c.Action, c.Val, c.SA, c.Format, c.VErr, c.Level, c.Anchor, c.Step, c.Token, c.VErrRes, c.Blob)
+		in := CApp("mk_xinput", c.Action, CBool(c.SA), CN(int64(c.Val)), c05OptZ(c.Stime), CStrList(e.subjs), CBool(c.VErr), CList(resTerms))
+		obs := CApp("mk_xobs", CList(callTerms), resTerm, CBool(c.Rejected), CBool(c.Panic != ""))
+		term := CApp("mk_xcase", CN(my), in, obs)
+		nontriv := c.Action != "Skip" && (c.VErr || hasNonOK(c.Vec) || len(results) != c.N)
+		key := fmt.Sprintf("%v|%v|%v|%v|%v|%v|%v|%v|%v|%v|%v|%v", c.Vec, c.Action, c.Val, c.SA, c.Format, c.VErr, c.Level, c.Anchor, c.Step, c.Token, c.VErrRes, c.Blob) + fmt.Sprint(c.Ann, c.NilRes, c.Method, c.SrvErr)
 		w.Add(my, term, c, key, nontriv)
 		w.Count("chain_len", fmt.Sprint(c.N))
 		w.Count("trust_anchor", []string{"root", "middle", "leaf"}[c.Anchor])
@@ -316,6 +384,8 @@ func runC05(a *Args) error {
 		w.Count("validators", fmt.Sprint(c.Val))
 		w.Count("obs_result", strings.SplitN(c.Result, ":", 2)[0])
 		w.Count("rejected", fmt.Sprint(c.Rejected))
+		w.Count("panicked", fmt.Sprint(c.Panic != ""))
+		w.Count("results_vs_chain", map[bool]string{true: "error", false: map[int]string{-1: "fewer", 0: "equal", 1: "more"}[sign(len(results)-c.N)]}[c.VErr])
 	}
 
 	formats := []string{MtJWS, MtCOSE}
@@ -480,7 +550,84 @@ func runC05(a *Args) error {
 			}
 		})
 	}
+	// 8. answers OUTSIDE the one-result-per-certificate contract, no error: fewer results than certificates
+	// (including none at all: (nil, nil) and an empty slice) are aggregated as they are - an all-passing short
+	// vector PASSES although nothing was reported about the remaining certificates (model: C05_pass_only_if_refuted);
+	// more results than certificates make revocationFinalResult index the chain out of range (Verify panics).
+	// Judged by correspondence with the model only (the property oracle is evaluated under the contract).
+	for n := 1; n <= 4; n++ {
+		for _, m := range []int{0, 1, 2, 3, n + 1, n + 2} {
+			if m == n {
+				continue
+			}
+			for pat := 0; pat < 3; pat++ { // 0: all passing, 1: one revoked, 2: one unknown / out-of-range value
+				if m == 0 && pat > 0 {
+					continue
+				}
+				v := make([]int, m)
+				for i := range v {
+					v[i] = rng.Intn(2)
+				}
+				if pat == 1 {
+					v[rng.Intn(m)] = 3
+				} else if pat == 2 {
+					v[rng.Intn(m)] = []int{2, 4}[rng.Intn(2)]
+				}
+				for _, act := range []string{"Enforce", "Log"} {
+					vals := []int{1 + rng.Intn(3)}
+					if pat == 0 && m < n {
+						vals = []int{1, 2, 3}
+					}
+					for _, val := range vals {
+						runCase(&c05Case{N: n, Format: Pick(rng, formats), SA: rng.Bool(), Action: act, Level: Pick(rng, levels), Val: val, Vec: v, Method: rng.Intn(4), Anchor: rng.Intn(3), NilRes: m == 0 && val != 2})
+					}
+				}
+			}
+		}
+		runCase(&c05Case{N: n, Format: Pick(rng, formats), SA: rng.Bool(), Action: "Skip", Level: Pick(rng, levels), Val: 1 + rng.Intn(3), Vec: make([]int, n+1)})
+	}
+	// 9. annotations varied per certificate: every RevocationMethod value (unknown, OCSP, CRL, OCSP-fallback-CRL and an
+	// out-of-range one) at every position, 0-3 server results per certificate with and without errors, combined with
+	// every verdict class; the verdict must be the one of the bare result vector (model: C05_independent_of_annotations)
+	nAnn := 120
+	if a.Tier == "thorough" {
+		nAnn = 3000
+	}
+	for k := 0; k < nAnn; k++ {
+		n := 1 + rng.Intn(4)
+		v := make([]int, n)
+		for i := range v {
+			v[i] = rng.Intn(2)
+		}
+		switch k % 4 {
+		case 1:
+			v[rng.Intn(n)] = 3
+		case 2:
+			v[rng.Intn(n)] = 2
+		case 3:
+			v[rng.Intn(n)] = 2 + rng.Intn(3)
+			v[rng.Intn(n)] = 2 + rng.Intn(3)
+		}
+		ann := make([]c05Ann, n)
+		for i := range ann {
+			ann[i].Method = (k + i) % 5
+			for j := rng.Intn(4); j > 0; j-- {
+				ann[i].Servers = append(ann[i].Servers, [2]int{rng.Intn(5), rng.Intn(2)})
+			}
+		}
+		runCase(&c05Case{N: n, Format: Pick(rng, formats), SA: rng.Bool(), Action: Pick(rng, []string{"Enforce", "Log"}), Level: Pick(rng, levels), Val: 1 + rng.Intn(3), Vec: v, Ann: ann, Anchor: rng.Intn(3)})
+	}
 	return w.Close()
+}
+
+func sign(x int) int {
+	switch {
+	case x < 0:
+		return -1
+	case x > 0:
+		return 1
+	}
+	return 0
 }
 
 func indexOf(xs []string, x string) int {
